@@ -1,12 +1,13 @@
 package importsim
 
 import (
+	"fmt"
 	"strings"
 
 	"verif/sim/core"
 )
 
-var certainKinds = []string{"enoent", "eacces", "eio-open", "eio-read", "garbage-import", "garbage-body", "garbage-bracket"}
+var certainKinds = []string{"enoent", "eacces", "eio-open", "eio-read", "garbage-import", "garbage-body", "garbage-bracket", "bad-escape"}
 var uncertainKinds = []string{"truncate", "flip", "close-error", "empty"}
 
 // planFaults draws 1..3 faults and applies the content ones to the delivered text.
@@ -130,6 +131,9 @@ func applyContentFault(f *FileSpec, ft *Fault) {
 		f.Text = "import :::\n" + f.Text
 	case "garbage-body":
 		f.Text = f.Text + garbageLine
+	case "bad-escape":
+		// grammatical, but with an invalid URL escape in a call target: a bad file all the same
+		f.Text = f.Text + fmt.Sprintf("Esc%d:\n    E:\n        Shared <- x%%zz\n", f.ID)
 	case "garbage-bracket":
 		// an attribute list that is never closed: the file ends inside '['
 		f.Text = f.Text + "Tail [~x, y=\"z\"\n"
